@@ -9,3 +9,6 @@ import PhyloModel.Props.C04
 #print axioms C04.root_live
 #print axioms C04.get_dead
 #print axioms C04.abs_dead
+#print axioms C04.C04_history_vs_fresh
+#print axioms C04.get_by_name_after_history
+#print axioms C04.fresh_arena_exists
